@@ -332,4 +332,205 @@ theorem C03_model_pubkey_compressed (blob : Bytes) :
     (decide (blob.length ≠ 33) || !(decide (blob.head? = some 2) || decide (blob.head? = some 3))) = !isCompressedPubKey blob := by
   first | exact C03M_pubkey_compressed .. | (apply C03M_pubkey_compressed <;> assumption)
 
+/-! ## the CHECKSIG family, every opcode, every script (twins of `C03M_*`) -/
+
+section
+variable (chk : Bytes → Bytes → Bytes → Bool → Bool) (cfg : Config)
+
+/-- `der.sigdecode_der_lax` (index based port) = `ecdsa_signature_parse_der_lax` of the specification on **every** byte
+string: same failures, same `(r, s)` — up to libsecp256k1 overwriting an out-of-range signature with `(0, 0)` -/
+theorem C03_model_sigenc_lax (sig : Bytes) : laxDerParse sig = (sigdecodeDerLax sig).map normSig := by
+  first | exact C03M_sigenc_lax .. | (apply C03M_sigenc_lax <;> assumption)
+
+/-- every signature that passes `IsValidSignatureEncoding` is read by the lax parser (so LOW_S never meets an
+unparseable signature) -/
+theorem C03_model_sigenc_valid_parses (sig : Bytes) (hv : isValidSignatureEncoding sig = true) :
+    ∃ r s, sigdecodeDerLax sig.dropLast = some (r, s) := by
+  first | exact C03M_sigenc_valid_parses .. | (apply C03M_sigenc_valid_parses <;> assumption)
+
+/-- `parse_and_check_signature_blob(sig, flags)` = `CheckSignatureEncoding(sig, flags)` for every byte string and flag
+set: it raises exactly when Core rejects (DERSIG/LOW_S/STRICTENC ⇒ strict DER; LOW_S ⇒ low S on the lax-parsed pair;
+STRICTENC ⇒ defined hash type), and otherwise yields a pair exactly when the blob is non-empty and lax-parsable -/
+theorem C03_model_sigenc_blob (sig : Bytes) (n : Nat) :
+    (∃ e, parseAndCheckSignatureBlob sig n = .error e ∧ (checkSignatureEncoding sig (Flags.ofBits n)).isSome = true) ∨
+    (∃ p, parseAndCheckSignatureBlob sig n = .ok p ∧ checkSignatureEncoding sig (Flags.ofBits n) = none ∧
+        (p == .parsed) = (!sig.isEmpty && (laxDerParse sig.dropLast).isSome)) := by
+  first | exact C03M_sigenc_blob .. | (apply C03M_sigenc_blob <;> assumption)
+
+/-- Core's `CheckSig` (`Spec/Secp256k1.checkSigWith`: key parse, empty signature, lax DER, ECDSA) has the early exits
+`ChkWF` asks for, whatever the signature hash: the hypothesis of the theorems below is satisfied by the real thing -/
+theorem C03_model_chk_wf_core (sighash : Bytes → Bool → Nat → Bytes) :
+    ChkWF (fun sig pk code w => Spec.Secp256k1.checkSigWith (sighash code w) sig pk) := by
+  first | exact C03M_chk_wf_core .. | (apply C03M_chk_wf_core <;> assumption)
+
+/-- **checksigs_eq**: the two nested `while` loops of `checksigs` (pycoin pops signatures and keys from the end, parses
+a signature once, tries it on keys while more keys than signatures remain) give the verdict of Core's
+`while (fSuccess && nSigsCount > 0)` loop, for **all** signature and key lists with `#sigs ≤ #keys` (no bound of 20
+needed), every flag set; both encodings are checked for every pair either side examines. Induction on the signature
+list, inner induction on the key list. -/
+theorem C03_model_checksigs_eq (hwp : hasFlag cfg.flags Gen.VM.VERIFY_WITNESS_PUBKEYTYPE = true → cfg.witness = true)
+    (hchk : ChkWF chk) (code : Bytes) (sigs pubs : List Bytes) (h : sigs.length ≤ pubs.length) :
+    (checksigsLoop (stdEnv chk) cfg (.ok code) sigs pubs).toOption = (specMulti chk cfg code sigs pubs).toOption := by
+  first | exact C03M_checksigs_eq .. | (apply C03M_checksigs_eq <;> assumption)
+
+/-- C03.step_eq, OP_CHECKSIG / OP_CHECKSIGVERIFY at handler level, for every Core state: stack depth, both encodings,
+the check, NULLFAIL, the VERIFY suffix -/
+theorem C03_model_step_eq_checksig (hwp : hasFlag cfg.flags Gen.VM.VERIFY_WITNESS_PUBKEYTYPE = true → cfg.witness = true)
+    (hchk : ChkWF chk) : ∀ op ∈ [0xac, 0xad],
+    ∃ h, Gen.VM.lookupList[op]? = some (h, false) ∧
+      ∀ (st : Consensus.State) (pc' : Nat), (∀ sigs, (∀ x ∈ sigs, x ∈ st.stack) → DelAgrees cfg st sigs) →
+        Agree pc' (runHandler (stdEnv chk) cfg h (absS st pc')) (specCheckSig chk cfg st op) := by
+  first | exact C03M_step_eq_checksig .. | (apply C03M_step_eq_checksig <;> assumption)
+
+/-- C03.step_eq, OP_CHECKMULTISIG / OP_CHECKMULTISIGVERIFY at handler level, for every Core state and all `m ≤ n ≤ 20`:
+4-byte minimal counts and their ranges, stack depth, NULLDUMMY, the matching loops, NULLFAIL, the VERIFY suffix, and the
+op-count contribution of the key count — Core adds it and tests the limit before looking at the keys, pycoin
+(`vm.op_count += key_count` at the very end) only afterwards, so the comparison is made through `cntCheck`, the test
+`eval_instruction` applies right after the handler -/
+theorem C03_model_step_eq_checkmultisig (hwp : hasFlag cfg.flags Gen.VM.VERIFY_WITNESS_PUBKEYTYPE = true → cfg.witness = true)
+    (hchk : ChkWF chk) : ∀ op ∈ [0xae, 0xaf],
+    ∃ h, Gen.VM.lookupList[op]? = some (h, false) ∧
+      ∀ (st : Consensus.State) (pc' : Nat), (∀ sigs, (∀ x ∈ sigs, x ∈ st.stack) → DelAgrees cfg st sigs) →
+        ((runHandler (stdEnv chk) cfg h (absS st pc')).bind cntCheck).toOption =
+          (specCheckMultiSig chk cfg st op).toOption.map (absS · pc') := by
+  first | exact C03M_step_eq_checkmultisig .. | (apply C03M_step_eq_checkmultisig <;> assumption)
+
+/-- C03.step_eq at the level of `VM.eval_instruction`, **all 256 opcode values**: for every Core state `st` and every
+position `pc` inside the script, one `eval_instruction` on the pycoin state representing `st` and one iteration of
+Core's `EvalScript` loop both fail or both succeed with corresponding states.  Hypotheses: MINIMALIF and
+WITNESS_PUBKEYTYPE are only given to witness VMs (`check_solution` strips them otherwise: discharged in
+`C03M_verify_eq`), `ChkWF chk`, and signature deletion agrees for the signatures on this stack (trivial for witness VMs). -/
+theorem C03_model_step_eq (st : Consensus.State) (pc : Nat) (hpc : pc < cfg.script.length)
+    (hw : hasFlag cfg.flags Gen.VM.VERIFY_MINIMALIF = true → cfg.witness = true)
+    (hwp : hasFlag cfg.flags Gen.VM.VERIFY_WITNESS_PUBKEYTYPE = true → cfg.witness = true) (hchk : ChkWF chk)
+    (hdel : ∀ sigs, (∀ x ∈ sigs, x ∈ st.stack) → DelAgrees cfg st sigs) :
+    match getScriptOp (cfg.script.drop pc) with
+    | none => (evalInstruction (stdEnv chk) cfg (absS st pc)).toOption = none
+    | some (op, data, _, size) =>
+        Agree (pc + size) (evalInstruction (stdEnv chk) cfg (absS st pc)) (specStep chk cfg st op data (pc + size)) := by
+  first | exact C03M_step_eq .. | (apply C03M_step_eq <;> assumption)
+
+/-- `C03M_step_eq` with the deletion hypothesis discharged: all it takes is that the stack items are within 520 bytes
+(any script code: `C03M_sigdel_eq`) -/
+theorem C03_model_step_eq_items (st : Consensus.State) (pc : Nat) (hpc : pc < cfg.script.length)
+    (hw : hasFlag cfg.flags Gen.VM.VERIFY_MINIMALIF = true → cfg.witness = true)
+    (hwp : hasFlag cfg.flags Gen.VM.VERIFY_WITNESS_PUBKEYTYPE = true → cfg.witness = true) (hchk : ChkWF chk)
+    (hok : okL st.stack) :
+    match getScriptOp (cfg.script.drop pc) with
+    | none => (evalInstruction (stdEnv chk) cfg (absS st pc)).toOption = none
+    | some (op, data, _, size) =>
+        Agree (pc + size) (evalInstruction (stdEnv chk) cfg (absS st pc)) (specStep chk cfg st op data (pc + size)) := by
+  first | exact C03M_step_eq_items .. | (apply C03M_step_eq_items <;> assumption)
+
+/-- C03.eval_eq for arbitrary initial stacks, under the hypothesis that signature deletion is shared along the run
+(`SigDelShared`; by `C03M_sigdel_eq` it holds whenever the initial items are within 520 bytes, which is `C03M_eval_eq`): same verdict, and on success the same final stack -/
+theorem C03_model_eval_eq_shared (hw : hasFlag cfg.flags Gen.VM.VERIFY_MINIMALIF = true → cfg.witness = true)
+    (hwp : hasFlag cfg.flags Gen.VM.VERIFY_WITNESS_PUBKEYTYPE = true → cfg.witness = true) (hchk : ChkWF chk)
+    (stack : List Bytes) (hdel : SigDelShared chk cfg stack) :
+    (evalScript (stdEnv chk) cfg stack).toOption.map (·.stack) =
+      (Consensus.evalScript (specChk chk) stack cfg.script (Flags.ofBits cfg.flags)
+        ⟨cfg.ctx.version, cfg.ctx.lockTime, cfg.ctx.sequence⟩ (if cfg.witness then .witnessV0 else .base)).toOption := by
+  first | exact C03M_eval_eq_shared .. | (apply C03M_eval_eq_shared <;> assumption)
+
+/-- **signature deletion agrees**: pycoin's `_delete_signature` (instruction walk dropping the instructions equal to the
+canonical push of the signature and keeping an undecodable tail verbatim — since the repair a9b3b8d; signatures taken
+bottom-most first) and Core's `FindAndDelete(scriptCode, CScript() << sig)` (top-most first) give the same script code for
+**every** script code and every list of signatures of at most 520 bytes; and along Core's run of any script on items
+within 520 bytes this is always so (items never exceed 520 bytes: `specStep_items`) -/
+theorem C03_model_sigdel_eq :
+    (∀ (st : Consensus.State) (sigs : List Bytes), (∀ s ∈ sigs, s.length ≤ 520) → DelAgrees cfg st sigs) ∧
+    (∀ stack0, okL stack0 → SigDelShared chk cfg stack0) := by
+  first | exact C03M_sigdel_eq .. | (apply C03M_sigdel_eq <;> assumption)
+
+/-- a script with an undecodable instruction fails its evaluation on both sides (BAD_OPCODE at the latest when the loop
+gets there, even in a dead branch), whatever happened before — no assumption on signature deletion -/
+theorem C03_model_eval_unwalkable (hw : hasFlag cfg.flags Gen.VM.VERIFY_MINIMALIF = true → cfg.witness = true)
+    (hnw : ¬ Walkable cfg.script) (stack : List Bytes) :
+    (evalScript (stdEnv chk) cfg stack).toOption = none ∧
+      (Consensus.evalScript (specChk chk) stack cfg.script (Flags.ofBits cfg.flags)
+        ⟨cfg.ctx.version, cfg.ctx.lockTime, cfg.ctx.sequence⟩ (if cfg.witness then .witnessV0 else .base)).toOption = none := by
+  first | exact C03M_eval_unwalkable .. | (apply C03M_eval_unwalkable <;> assumption)
+
+/-- C03.eval_eq, **every script**: `VM(script, …, initial_stack).eval_script()` and Core's `EvalScript` give the same
+verdict and, on success, the same final stack, for all scripts (decodable or not, CHECKSIG family included), all initial
+stacks whose items are within `MAX_SCRIPT_ELEMENT_SIZE` (as every stack `check_solution` builds: `compile_push_data` of a
+≥ 4 GiB signature raises `struct.error`, which Core has no counterpart for), all flag sets, transaction contexts and both
+signature versions.  Remaining hypotheses: MINIMALIF / WITNESS_PUBKEYTYPE only in witness VMs (discharged in
+`C03M_verify_eq`) and `ChkWF`. -/
+theorem C03_model_eval_eq (hw : hasFlag cfg.flags Gen.VM.VERIFY_MINIMALIF = true → cfg.witness = true)
+    (hwp : hasFlag cfg.flags Gen.VM.VERIFY_WITNESS_PUBKEYTYPE = true → cfg.witness = true) (hchk : ChkWF chk)
+    (stack : List Bytes) (hok : okL stack) :
+    (evalScript (stdEnv chk) cfg stack).toOption.map (·.stack) =
+      (Consensus.evalScript (specChk chk) stack cfg.script (Flags.ofBits cfg.flags)
+        ⟨cfg.ctx.version, cfg.ctx.lockTime, cfg.ctx.sequence⟩ (if cfg.witness then .witnessV0 else .base)).toOption := by
+  first | exact C03M_eval_eq .. | (apply C03M_eval_eq <;> assumption)
+
+/-- C03.eval_eq for witness (BIP143) VMs: no hypothesis beyond `ChkWF` — every witness script, every initial stack,
+every flag set -/
+theorem C03_model_eval_eq_witness (hchk : ChkWF chk) (hwit : cfg.witness = true) (stack : List Bytes) :
+    (evalScript (stdEnv chk) cfg stack).toOption.map (·.stack) =
+      (Consensus.evalScript (specChk chk) stack cfg.script (Flags.ofBits cfg.flags)
+        ⟨cfg.ctx.version, cfg.ctx.lockTime, cfg.ctx.sequence⟩ .witnessV0).toOption := by
+  first | exact C03M_eval_eq_witness .. | (apply C03M_eval_eq_witness <;> assumption)
+
+end
+
+/-! ## the whole spend check (twins of `C03M_verify_*`) -/
+
+section
+variable (chk : Bytes → Bytes → Bytes → Bool → Bool)
+
+/-- `_check_script_push_only` (walks `get_opcode`, ignores decode failures; `data_opcodes` leaves OP_RESERVED out) and
+`CScript::IsPushOnly` accept the same scripts among those `EvalScript` runs to the end — a script on which they differ
+(truncated push, OP_RESERVED) fails its own evaluation, on both sides -/
+theorem C03_model_verify_pushonly (cfg : Config) (stack : List Bytes) (st' : Consensus.State)
+    (h : specLoop chk cfg cfg.script.length cfg.script 0 { stack := stack } = .ok st') :
+    (checkScriptPushOnly cfg.script = .ok ()) ↔ isPushOnly cfg.script = true := by
+  first | exact C03M_verify_pushonly .. | (apply C03M_verify_pushonly <;> assumption)
+
+/-- `EvalScript` looks at the flags in `evalPart` only: stripping MINIMALIF / WITNESS_PUBKEYTYPE / P2SH from the flags of a
+base-version VM, or adding CLEANSTACK to those of a witness VM, as `check_solution` does, changes no evaluation -/
+theorem C03_model_verify_flags (sc : Bytes → Bytes → Bytes → SigVersion → Bool) (stack : List Bytes) (script : Bytes)
+    (F G : Flags) (tx : Consensus.TxCtx) (sv : SigVersion) (h : evalPart sv F = evalPart sv G) :
+    Consensus.evalScript sc stack script F tx sv = Consensus.evalScript sc stack script G tx sv := by
+  first | exact C03M_verify_flags .. | (apply C03M_verify_flags <;> assumption)
+
+/-- witness-program detection: `_witness_program_version` + `puzzle_script[2:]` = `CScript::IsWitnessProgram`;
+`is_pay_to_script_hash` = `CScript::IsPayToScriptHash` -/
+theorem C03_model_verify_detect (s : Bytes) :
+    isWitnessProgram s = (witnessProgramVersion s).map (fun v => (v, s.drop 2)) ∧
+      isPayToScriptHash s = Consensus.isPayToScriptHash s := by
+  first | exact C03M_verify_detect .. | (apply C03M_verify_detect <;> assumption)
+
+/-- the end of the pipeline, for the script `puzzle` to be tested (scriptPubKey, or redeem script when `isP2sh`):
+`witness_program_tuple` (malleation rule on the scriptSig bytes, v0 20/32-byte rules, 520-byte item limit, P2WPKH script,
+DISCOURAGE_UPGRADABLE_WITNESS_PROGRAM, WITNESS_UNEXPECTED), the witness VM, and the CLEANSTACK rule with the flags of the
+last tuple = the rest of `VerifyScript` (`VerifyWitnessProgram`, `stack.resize(1)`, CLEANSTACK, WITNESS_UNEXPECTED) -/
+theorem C03_model_verify_tail (hchk : ChkWF chk) (c : SolCtx) (puzzle : Bytes) (flags : Nat) (isP2sh : Bool) (lastFlags : Nat)
+    (stackPy : List Bytes) (hcl : hasFlag lastFlags Gen.VM.VERIFY_CLEANSTACK = (Flags.ofBits flags).cleanstack) :
+    (witnessTail (stdEnv chk) c puzzle flags isP2sh lastFlags stackPy).toOption.isSome =
+      (specTail (specChk chk) c.solutionScript c.witnessPy (Flags.ofBits flags) (specTx c.tx) puzzle isP2sh stackPy.length).isNone := by
+  first | exact C03M_verify_tail .. | (apply C03M_verify_tail <;> assumption)
+
+/-- `C03M_verify_eq` from the agreement of its (up to) three base-version VMs with `EvalScript` (stage form) -/
+theorem C03_model_verify_eq_stages (hchk : ChkWF chk) (c : SolCtx) (flags : Nat) (hag : VerifyAgree chk c flags) :
+    (checkSolution (stdEnv chk) c flags).toOption.isSome =
+      (verifyScript (specChk chk) c.solutionScript c.puzzleScript c.witnessPy (Flags.ofBits flags) (specTx c.tx)).isNone := by
+  first | exact C03M_verify_eq_stages .. | (apply C03M_verify_eq_stages <;> assumption)
+
+/-- **C03.verify_eq**: `BitcoinSolutionChecker.check_solution(tx_context, flags)` succeeds exactly when Core's
+`VerifyScript(scriptSig, scriptPubKey, witness, flags)` does — for **every** scriptSig, scriptPubKey, witness stack, flag
+set (no restriction to the combinations Core permits) and transaction context, with no hypothesis other than `ChkWF`:
+SIGPUSHONLY, scriptSig evaluation, stack copy, scriptPubKey evaluation, truth test, P2SH detection / push-only rule /
+redeem script, witness-program detection (native and P2SH-wrapped), malleation rules on the scriptSig bytes, v0 20/32-byte
+rules, P2WPKH script, 520-byte items, upgradable versions / DISCOURAGE flag, CLEANSTACK, WITNESS_UNEXPECTED.  The
+MINIMALIF / WITNESS_PUBKEYTYPE hypothesis of `C03M_eval_eq` is discharged from how `check_solution` builds its VMs, the
+item-size hypothesis from the invariant of Core's run (`spec_eval_items`). -/
+theorem C03_model_verify_eq (hchk : ChkWF chk) (c : SolCtx) (flags : Nat) :
+    (checkSolution (stdEnv chk) c flags).toOption.isSome =
+      (verifyScript (specChk chk) c.solutionScript c.puzzleScript c.witnessPy (Flags.ofBits flags) (specTx c.tx)).isNone := by
+  first | exact C03M_verify_eq .. | (apply C03M_verify_eq <;> assumption)
+
+end
+
 end Pycoin.VM
